@@ -2161,7 +2161,8 @@ theorem PreInv.dn {r r' : R} (hP : PreInv r) (hok : DNOk r r') (hm : OutMode r')
 /-- **`read_info`**: either it fails with an error, or it returns a `Reader` satisfying the invariant -/
 theorem readInfo'_spec (cfg : Cfg) (t : TCfg) (r : R) (hP : PreInv r) (hnr : r.isReader = false) :
     match readInfo' cfg t r with
-    | (r', res) => (res = .header ∧ Inv t r' ∧ r'.isReader = true ∧ r'.dead = r.dead ∧ r'.input = r.input) ∨
+    | (r', res) => (res = .header ∧ Inv t r' ∧ r'.isReader = true ∧ r'.dead = r.dead ∧ r'.input = r.input ∧
+          ∃ i, r'.dec.info = some i ∧ sizeFits (t.outColorDepth i r'.flags) i.width i.height = true) ∨
         res.isErr = true := by
   unfold readInfo'
   rw [hnr]
@@ -2193,15 +2194,24 @@ theorem readInfo'_spec (cfg : Cfg) (t : TCfg) (r : R) (hP : PreInv r) (hnr : r.i
             simp only
             obtain ⟨i2, hi2, hs2, _⟩ := hsp2.info
             simp only [hi2]
-            refine Or.inl ⟨by first | rfl | trivial, ?_, hsp2.isReader, hsp2.dead.trans f8, hsp2.input.trans f9⟩
-            apply Inv.newFrame hsp2 _ _ hP1.finished
-            · intro snap hsn
-              have : r1.cached = none := hP1.cached
-              rw [show ({ r1 with isReader := true } : R).cached = r1.cached from rfl, this] at hsn
-              cases hsn
-            · split
-              · exact Nat.le_refl 1
-              · exact Nat.le_max_left _ _
+            split
+            · rename_i hfit
+              have hwh : i2.width = i.width ∧ i2.height = i.height := by
+                obtain ⟨i', hi', hc, _⟩ := hsp2.step.evo i hi
+                rw [hi2] at hi'; cases hi'
+                simp only [Info.core, Prod.mk.injEq] at hc
+                exact ⟨hc.1, hc.2.1⟩
+              refine Or.inl ⟨by first | rfl | trivial, ?_, hsp2.isReader, hsp2.dead.trans f8, hsp2.input.trans f9,
+                ⟨i2, hi2, by rw [hwh.1, hwh.2]; exact hfit⟩⟩
+              apply Inv.newFrame hsp2 _ _ hP1.finished
+              · intro snap hsn
+                have : r1.cached = none := hP1.cached
+                rw [show ({ r1 with isReader := true } : R).cached = r1.cached from rfl, this] at hsn
+                cases hsn
+              · split
+                · exact Nat.le_refl 1
+                · exact Nat.le_max_left _ _
+            · exact Or.inr rfl
       · exact Or.inr rfl
 
 /-- **`next_frame` as an operation of the model** (buffer of the documented size) -/
